@@ -599,6 +599,14 @@ Section Eval.
     end.
 End Eval.
 
+(* ExpressionEvaluator.evaluate: every Exception other than ExpressionError raised while a node is evaluated
+   (TypeError, AttributeError, statistics errors, ...) is re-raised AS ExpressionError.  Nothing between the
+   nodes catches ExpressionError, so wrapping at every node = wrapping once at the top.  [Crash] therefore
+   never leaves [evaluate]; it stays in the result type (and OCrash in Model.outcome) so that a tree in which
+   it escapes again is reported as a broken correspondence / "ill-typed filter aborts the run". *)
+Definition wrap {A} (r : res A) : res A := match r with Crash => ExprErr | _ => r end.
+Definition evaluate (vars : env) (c : ctx) (e : expr) : res value := wrap (eval vars c e).
+
 (* ---- section_engine ------------------------------------------------------------------------- *)
 Definition defs := list (string * expr).
 
@@ -608,7 +616,7 @@ Definition norm_defs (raw : defs) : defs := fold_left (fun d ne => dset d (fst n
 (* evaluate_variables: an ExpressionError makes the variable None; anything else escapes *)
 Definition eval_vars (ds : defs) (c : ctx) (start : env) : res env :=
   fold_left (fun acc ne => vars <- acc ;;
-                           match eval vars c (snd ne) with
+                           match evaluate vars c (snd ne) with
                            | Val v => Val (dset vars (fst ne) v)
                            | ExprErr => Val (dset vars (fst ne) VNone)
                            | Crash => Crash
@@ -620,7 +628,7 @@ Record view := { v_name : string; v_vars : defs (* as written, in file order *);
 (* evaluate_section_filter, given the evaluated globals *)
 Definition eval_filter (v : view) (c : ctx) (globals : env) : res bool :=
   vars <- eval_vars (norm_defs (v_vars v)) c globals ;;
-  match eval vars c (v_filter v) with
+  match evaluate vars c (v_filter v) with
   | Val x => truthy x
   | ExprErr => ExprErr
   | Crash => Crash
